@@ -669,3 +669,36 @@ def PT_assign(st):
     if isinstance(st, ast.AnnAssign):
         return st.target, st.value
     return None, None
+
+
+def a4b_clean_labels_call_site(ctx) -> None:
+    """_clean_labels pairs rule.children with the labels it is given *by position*.  Its call
+    site must therefore hand it the labels exactly as they arrived (aligned with the rule's
+    children): anything that reorders, sorts, de-duplicates or filters them first makes it
+    test emptiness of one child and drop the label of another."""
+    P = ctx.P
+    n = 0
+    for fi in P.all_functions():
+        f = fi.node
+        for c in walk_local(f):
+            if isinstance(c, ast.Call) and isinstance(c.func, ast.Attribute) and c.func.attr == "_clean_labels" and len(c.args) == 2:
+                n += 1
+                ctx.analysed(fi)
+                a0 = c.args[0]
+                params = D.param_names(f)
+                ok = False
+                if isinstance(a0, ast.Name) and a0.id in params:
+                    rv = D.reaching_value(f, a0, a0.id)
+                    # no re-binding of the parameter reaches the call
+                    redefs = [d for d in D.definitions(f).get(a0.id, []) if d[3] != "param" and d[0] is not C.stmt_of(c) and getattr(d[0], "lineno", 0) <= c.lineno]
+                    ok = rv is None and not redefs
+                if ok:
+                    ctx.ok("A4", f"{fi.qualname}: _clean_labels receives the labels as they arrived (aligned with rule.children)")
+                else:
+                    ctx.violation("A4", c, f"{fi.qualname}: the labels handed to _clean_labels (`{norm(D.expanded(f, a0))[:60]}`) are not the `ends` this function received, unchanged: "
+                                  "_clean_labels zips them with rule.children, so any reordering makes it drop the label of another child than the empty one")
+                if C.guards(f, c):
+                    gs = [norm(t) for t, _p in C.guards(f, c)]
+                    ctx.note(f"{fi.qualname}: _clean_labels is applied under {gs}")
+    if n < 1:
+        ctx.floor("A4", 99)
